@@ -170,10 +170,9 @@ theorem settled_stepK {P : Params κ} {A : AdmSpec κ} (hG : GoodK P A) {cfg : C
       by rw [fs_checks l (hpo l hl) t ht]; exact hch⟩
     rw [hks, hfres _ (fun ohs' hohs' e => ?_)]
     · exact hres
-    · have hl' : (keyState t s.fs ohs).label = (keyState t0 s.fs ohs').label :=
-        (hG.inj _ _ (hG.admKs t s.fs ohs (hT l (hpo l hl) t ht) (hin l (hpo l hl) t ht) (depOhs_length hoh))
-          (hG.admKs t0 s.fs ohs' (hT l0 hl0o t0 ht0) (hin l0 hl0o t0 ht0) (depOhs_length hohs')) e).1
-      simp only [keyState] at hl'
+    · have hl' : t.label = t0.label :=
+        hG.sepLbl t s.fs ohs t0 s.fs ohs' (hT l (hpo l hl) t ht) (hT l0 hl0o t0 ht0) (hin l (hpo l hl) t ht) (hin l0 hl0o t0 ht0)
+          (depOhs_length hoh) (depOhs_length hohs') e
       rw [hlab, hlab0] at hl'; exact hne hl'
   · -- the target just processed
     simp only [List.mem_singleton] at hl; subst hl
@@ -296,8 +295,9 @@ theorem tryHit_all_intro (P : Params κ) (cfg : Cfg) (t : Target) (k : κ) (s : 
 
 theorem buildTarget_hit_intro (P : Params κ) (cfg : Cfg) (defs : Defs) (fuel : Nat) (t : Target) (s s1 : BState κ)
     (ohs : List (OH κ)) (hd : depsOk s.st t.deps = true) (ho : depOhs s.st t.hdeps = some ohs)
-    (hh : tryHit P cfg t (P.K (keyState t s.fs ohs)) s = some s1) : buildTarget P cfg defs fuel t s = s1 := by
-  simp [buildTarget, hd, ho, hh]
+    (hh : tryHit P cfg t (P.K (keyState t s.fs ohs)) s = some s1) (hm : cfg.minimal = false) : buildTarget P cfg defs fuel t s = s1 := by
+  rw [buildTarget_all_eq P cfg defs fuel t s hm]
+  simp [buildTargetNoPre, hd, ho, hh]
 
 /-- the second build: every target is a hit -/
 structure Second (defs : Defs) (order : List Lbl) (f s2 : BState κ) (done : List Lbl) : Prop where
@@ -330,7 +330,7 @@ theorem second_stepK {P : Params κ} {cfg : Cfg} {defs : Defs} {order : List Lbl
   have hhit := tryHit_all_intro P cfg t0 (P.K (keyState t0 s2.fs ohs)) s2 r hpl.all
     (by rw [hks, hJ.cache]; exact hresf) (by rw [hJ.cache, hlab0]; exact hta) (hpl.cached l0 hl0o t0 ht0) hpl.enabled hch2 hv
     (fun ov hov => by rw [hJ.cache]; exact hb ov hov)
-  rw [buildTarget_hit_intro P cfg defs fuel t0 s2 _ ohs hd hohs hhit]
+  rw [buildTarget_hit_intro P cfg defs fuel t0 s2 _ ohs hd hohs hhit hpl.all]
   refine ⟨hJ.log, hJ.cache, fun p hp => ?_, fun l hl => ?_⟩
   · simp only
     rw [writeOuts_not_mem _ _ _ (by have := hp l0 hl0o t0 ht0; rw [outPaths, ← hv, List.map_map] at this; exact this)]
